@@ -15,7 +15,7 @@ INVS = ["AllWellFormed", "FitsDatagram", "RoundTripInv", "StrictRejected", "Norm
         "MalConsistent", "ReEncShrinks"]
 MAX_SIGNERS = 2048
 MAX_DLEN = 32758          # regular shredder, no parent
-MAL_CLASSES = ["trailing1", "trailing8", "truncate1", "tag_oob", "tag_max", "idx_oob", "idx_max",
+MAL_CLASSES = ["trailing1", "trailing8", "truncate1", "tag_oob", "tag_max", "idx_oob", "idx_max", "idx_hi32", "idx_hi56",
                "vidx_big", "words_gt_max", "words_to_max", "extra_word", "nbits_gt_alloc",
                "nbits_zero", "nbits_small", "garbage_live", "len_overflow", "flip_content", "tx_oversize",
                "tx_fill_mtu", "drop_half"]
